@@ -9,7 +9,7 @@
 From Coq Require Import ZArith List Bool Sorted Permutation.
 From V Require Import Model.ZMap Model.Quorum Model.HgImpl Proofs.AdmissionProofs Proofs.BlockInv
   Proofs.OrderSort Proofs.OrderFrames Proofs.OrderProofs Proofs.Static Proofs.Agreement Proofs.RoundReceived
-  Proofs.Committed Proofs.CausalityWitness.
+  Proofs.Committed Proofs.CausalityWitness Model.Window Proofs.GapWindow Proofs.CommittedD.
 Import ListNotations.
 Open Scope Z_scope.
 
@@ -245,6 +245,82 @@ Theorem C04_processed_rounds_complete : forall genesis all self_ oracle_ ops x e
      exists d, In d (delivered st) /\ b_rr d = R /\ b_frame d = f).
 Proof. exact (fun g all s o ops x ex R ID NA H => pi_db _ (hrun_pinv g all ID NA s o ops H) x ex R). Qed.
 Print Assumptions C04_processed_rounds_complete.
+
+(* THE SAME UNDER DYNAMIC MEMBERSHIP (no [no_accept]: join / leave requests accepted or refused at will), for every node
+   that respects the distance bound [gap_runb] (Proofs/GapWindow.v) and has not failed; code after fix 05eda0b.
+   Proofs/FirstDescD .. Proofs/CommittedD: the division invariant, the voting loop, the sticky flags, round-received and
+   the processed rounds with the validator set of each round read from the node's own final table. *)
+Theorem C04_rr_monotone_dynamic : forall genesis all self_ oracle_ ops a b ea eb ra rb,
+  self_ <> -1 -> ids_determine all -> Forall (hop_ok all) ops ->
+  gap_runb (init_hg self_ genesis oracle_) ops = true ->
+  let st := hrun (init_hg self_ genesis oracle_) ops in
+  failed st = false ->
+  anc st a b -> get_event st a = Some ea -> get_event st b = Some eb ->
+  ev_rr ea = Some ra -> ev_rr eb = Some rb -> ra <= rb.
+Proof.
+  exact (fun g all s o ops a b ea eb ra rb Hs ID H B F Hanc =>
+    rr_monotone_gap s g o all ops Hs ID H B F a b ea eb ra rb (oanc_anc _ a b Hanc)).
+Qed.
+Print Assumptions C04_rr_monotone_dynamic.
+
+Theorem C04_order_extends_causality_dynamic : forall genesis all self_ oracle_ ops k d j b a ea,
+  self_ <> -1 -> ids_determine all -> Forall (hop_ok all) ops ->
+  gap_runb (init_hg self_ genesis oracle_) ops = true ->
+  let st := hrun (init_hg self_ genesis oracle_) ops in
+  failed st = false ->
+  nth_error (delivered st) k = Some d -> nth_error (f_events (b_frame d)) j = Some b ->
+  anc st a (fe_id b) -> get_event st a = Some ea ->
+  (e_txs (ev_e ea) <> [] \/ e_itxs (ev_e ea) <> []) ->
+  exists k' d' i fa, nth_error (delivered st) k' = Some d' /\
+    nth_error (f_events (b_frame d')) i = Some fa /\ fe_id fa = a /\
+    ((k' < k)%nat \/ (k' = k /\ (i < j)%nat)).
+Proof.
+  exact (fun g all s o ops k d j b a ea Hs ID H B F =>
+    order_extends_causalityD s g o all ops Hs ID H B F k d j b a ea).
+Qed.
+Print Assumptions C04_order_extends_causality_dynamic.
+
+Theorem C04_frames_extend_causality_dynamic : forall genesis all self_ oracle_ ops R f b a,
+  self_ <> -1 -> ids_determine all -> Forall (hop_ok all) ops ->
+  gap_runb (init_hg self_ genesis oracle_) ops = true ->
+  let st := hrun (init_hg self_ genesis oracle_) ops in
+  failed st = false ->
+  zget R (frames st) = Some f -> In b (f_events f) -> anc st a (fe_id b) ->
+  exists R' f' fa, zget R' (frames st) = Some f' /\ In fa (f_events f') /\ fe_id fa = a /\ R' <= R.
+Proof.
+  exact (fun g all s o ops R f b a Hs ID H B F =>
+    frames_extend_causalityD s g o all ops Hs ID H B F R f b a).
+Qed.
+Print Assumptions C04_frames_extend_causality_dynamic.
+
+Theorem C04_committed_ancestor_dynamic : forall genesis all self_ oracle_ ops a b eb R,
+  self_ <> -1 -> ids_determine all -> Forall (hop_ok all) ops ->
+  gap_runb (init_hg self_ genesis oracle_) ops = true ->
+  let st := hrun (init_hg self_ genesis oracle_) ops in
+  failed st = false ->
+  anc st a b -> get_event st b = Some eb -> ev_rr eb = Some R ->
+  (exists l, last_consensus st = Some l /\ R <= l) ->
+  exists ea R', get_event st a = Some ea /\ ev_rr ea = Some R' /\ R' <= R.
+Proof.
+  exact (fun g all s o ops a b eb R Hs ID H B F =>
+    committed_ancestor_oD s g o all ops Hs ID H B F a b eb R).
+Qed.
+Print Assumptions C04_committed_ancestor_dynamic.
+
+Theorem C04_processed_rounds_complete_dynamic : forall genesis all self_ oracle_ ops x ex R,
+  self_ <> -1 -> ids_determine all -> Forall (hop_ok all) ops ->
+  gap_runb (init_hg self_ genesis oracle_) ops = true ->
+  let st := hrun (init_hg self_ genesis oracle_) ops in
+  failed st = false ->
+  get_event st x = Some ex -> ev_rr ex = Some R -> (exists l, last_consensus st = Some l /\ R <= l) ->
+  exists f, zget R (frames st) = Some f /\ In x (map fe_id (f_events f)) /\
+    ((e_txs (ev_e ex) <> [] \/ e_itxs (ev_e ex) <> []) ->
+     exists d, In d (delivered st) /\ b_rr d = R /\ b_frame d = f).
+Proof.
+  exact (fun g all s o ops x ex R Hs ID H B F =>
+    pi_db _ (hrun_pinvD s g o all ops Hs ID H B F) x ex R).
+Qed.
+Print Assumptions C04_processed_rounds_complete_dynamic.
 
 (* REFUTED: the literal form "every ancestor of a committed event is in a delivered block" (without
    the payload premise).  Frames without transactions produce no block; in the 15-event, two-validator
